@@ -392,4 +392,4 @@ def outer_unary_placement(chk, fb, RID="R03.7"):
         else:
             chk.violation(RID, "placement", "flatten_vecs composes %s after %s: the unary operators of the expression itself have to be appended after those of its flat node / last operator" % (
                 other[:80], recv[:80]), loc(t["span"]))
-    chk.floor(RID, "compositions of the outer unary operator in flatten_vecs", n, 2)
+    chk.floor(RID, "compositions of the outer unary operator in flatten_vecs", n, 1)
